@@ -46,6 +46,15 @@ type c17iCase struct {
 	Dup       bool `json:"dup"` // the message is delivered twice
 	Unidir    bool `json:"unidir"`
 	Tunnel    int  `json:"tunnel"` // what the station's dial to a DTLS client does: 0 times out, 1 yields a session that is relayed to a reachable covert, 2 yields a session whose covert refuses
+	// what the registrar attached to the message: its response to the client with the overrides it assigned
+	RR          bool   `json:"rr,omitempty"`
+	RRv4        string `json:"rr_v4,omitempty"`         // ipv4addr override: "" absent | zero | v4
+	RRv6        string `json:"rr_v6,omitempty"`         // ipv6addr override: "" absent | v6 | v4 (4 bytes) | mapped | short | long | empty
+	RRPort      int    `json:"rr_port,omitempty"`       // dst_port override: 0 absent, else the value (-1 stands for an explicit 0)
+	RRParamsFor int    `json:"rr_params_for,omitempty"` // transport parameter override: 0 absent, else 1 + transport whose parameter message it is (DTLS: with the client's endpoints)
+	NoOverrides bool   `json:"no_overrides,omitempty"`  // the client asked for registrar overrides not to be applied
+	RRErr       bool   `json:"rr_err,omitempty"`
+	Decoy       string `json:"decoy,omitempty"` // decoy_address: "" absent | v4 | v6 | short
 }
 
 // distinctive client addresses: nothing else in the harness uses these bytes
@@ -55,6 +64,75 @@ var (
 	c17iS4 = net.IPv4(198, 18, 77, 9).To4()
 	c17iS6 = net.ParseIP("2001:db8:eeee::c1e7:99")
 )
+
+// phantom addresses a registrar may assign (not client addresses), and generations whose phantoms
+// exist in one family only
+var (
+	c17iP4 = net.IPv4(192, 122, 190, 17).To4()
+	c17iP6 = net.ParseIP("2001:48a8:687f:1::77")
+)
+
+const c17iSubnets = vDefaultSubnets + `
+    [Networks.958]
+        Generation = 958
+        [[Networks.958.WeightedSubnets]]
+            Weight = 9
+            RandomizeDstPort = true
+            Subnets = ["192.122.190.0/24"]
+    [Networks.959]
+        Generation = 959
+        [[Networks.959.WeightedSubnets]]
+            Weight = 9
+            RandomizeDstPort = true
+            Subnets = ["2001:48a8:687f:1::/64"]
+`
+
+// c17iFamClasses: the relations between the registrant's family, the families the client asked for
+// and the family of the phantom the registration ends up with (from the inputs alone).
+func c17iFamClasses(c c17iCase) []string {
+	var cl []string
+	wellFormed := c.TT < 4 && c.SecretLen == 32 && (c.ParamsFor == c.TT || c.TT == 0 || c.TT == 2) && (c.Gen == 957 || c.Gen == 958 || c.Gen == 959)
+	if c.TT == 3 && c.ParamsFor == 3 && (c.Src4.Kind != "v4" && c.Src4.Kind != "none" || c.Src6.Kind != "v6" && c.Src6.Kind != "none" || c.Src4.Kind == "none" && c.Src6.Kind == "none") {
+		wellFormed = false
+	}
+	if c.RR && c.RRParamsFor != 0 && !c.NoOverrides {
+		wellFormed = false
+	}
+	if !wellFormed {
+		return nil
+	}
+	v4ov := c.RR && (c.RRv6 == "v4" || c.RRv6 == "mapped")
+	switch c.RegAddr.Kind {
+	case "v6":
+		if c.V6 && v4ov {
+			cl = append(cl, "fam:v6-registrant+v4-phantom:by-override")
+		}
+		if c.V6 && c.Gen == 958 && (!c.RR || c.RRv6 == "" || v4ov) {
+			cl = append(cl, "fam:v6-registrant+v4-phantom:by-generation")
+		}
+		if c.V6 && c.Gen != 958 && (!c.RR || c.RRv6 == "" || c.RRv6 == "v6") {
+			cl = append(cl, "fam:v6-registrant+v6-phantom")
+		}
+		if c.V4 && !c.V6 {
+			cl = append(cl, "fam:v6-registrant+v4-only-client")
+		}
+	case "v4", "mapped":
+		if c.V6 && v4ov {
+			cl = append(cl, "fam:v4-registrant+v6-registration-with-v4-phantom")
+		}
+		if c.V4 && c.Gen == 959 {
+			cl = append(cl, "fam:v4-registrant+generation-without-v4")
+		}
+		if c.V4 && c.RR && c.RRv4 == "v4" {
+			cl = append(cl, "fam:v4-registrant+v4-override")
+		}
+	case "none":
+		if c.V6 || c.V4 {
+			cl = append(cl, "fam:no-registrant-address")
+		}
+	}
+	return cl
+}
 
 func c17iBytes(a c17iAddr, v4 net.IP, v6 net.IP) []byte {
 	switch a.Kind {
@@ -138,20 +216,125 @@ func c17iGenAddr(rt *rapid.T, label string, kinds []string) c17iAddr {
 	}
 }
 
+const c17iHow = "registration messages through the real parseRegMessage + ingestRegistration with the real min / prefix / obfs4 / dtls transports: registrant address {absent, IPv4, IPv6, v4-mapped, 3 / 17 / 0 bytes}, DTLS client endpoints {absent, right family, wrong family, v4-mapped, wrong length} x ports {valid, 0, 65536, 70000, 2^31}, parameters of the right / another transport's type / absent, generations {both families, IPv4 phantoms only, IPv6 phantoms only, unknown}, library versions, families, complete / short secret, every registration source, duplicates; the registrar's response attached or not, with phantom overrides (ipv4addr {absent, 0, set}, ipv6addr {absent, IPv6, an IPv4 address in 4 or 16 bytes, 3 / 17 / 0 bytes}), port override, transport-parameter override (DTLS: carrying the client's endpoints) honoured or declined by the client, error text, decoy address; the station's dial to a DTLS client times out / yields a session that is relayed to a reachable covert / to a covert that refuses (so that the tunnel summary with its transport options is written); covert address always permitted (the line logged on purpose for a forbidden covert is outside the property); oracle: nothing logged at the default level contains any textual form (dotted, colon, hex, decimal bytes) of the registrant address or of the DTLS client endpoints; non-trivial = the station logged something for the message (it complained); distinct by case"
+
 func TestVerif_C17_ingest(t *testing.T) {
-	rec := vh.NewRec("C17", "ingest", "rapid-generated registration messages through the real parseRegMessage + ingestRegistration with the real min / prefix / obfs4 / dtls transports: registrant address {absent, IPv4, IPv6, v4-mapped, 3 / 17 / 0 bytes}, DTLS client endpoints {absent, right family, wrong family, v4-mapped, wrong length} x ports {valid, 0, 65536, 70000, 2^31}, parameters of the right / another transport's type / absent, known / unknown generation, library versions, families, complete / short secret, every registration source, duplicates; the station's dial to a DTLS client times out / yields a session that is relayed to a reachable covert / to a covert that refuses (so that the tunnel summary with its transport options is written); covert address always permitted (the line logged on purpose for a forbidden covert is outside the property); oracle: nothing logged at the default level contains any textual form (dotted, colon, hex, decimal bytes) of the registrant address or of the DTLS client endpoints; non-trivial = the station logged something for the message (it complained); distinct by case")
+	rec := vh.NewRec("C17", "ingest", "rapid-generated "+c17iHow)
 	defer rec.Flush()
-	rec.Require("station-complained", "tt:dtls", "dtls-endpoint-malformed", "regaddr-malformed", "tunnel-summary-logged")
+	rec.Require("station-complained", "tt:dtls", "dtls-endpoint-malformed", "regaddr-malformed", "tunnel-summary-logged", "registrar-response", "registrar-override:phantom", "registrar-override:params-with-endpoints")
 	if vh.ReplayFile() != "" && !strings.Contains(vh.ReplayFile(), "_ingest_") {
 		t.Skip("replay file belongs to another sub-check")
 	}
+	run := c17iSetup(t, rec)
+	if p := vh.ReplayFile(); p != "" {
+		var c c17iCase
+		if _, _, err := vh.LoadReplay(p, &c); err != nil {
+			t.Fatal(err)
+		}
+		run(t, c)
+		return
+	}
+	rapid.Check(t, func(rt *rapid.T) { run(rt, c17iGen(rt)) })
+}
+
+// The family relations on their own, exhaustively: which family the registrant's address has, which
+// families the client asked for, which families the generation has phantoms in, and what the
+// registrar assigned - every combination, whatever the station makes of it (two registrations, one,
+// a rejection).
+func TestVerif_C17_ingestfam(t *testing.T) {
+	rec := vh.NewRec("C17", "ingestfam", "exhaustive: registrant address {absent, IPv4, IPv6, v4-mapped} x families the client supports {none, 4, 6, both} x generation {phantoms in both families, IPv4 only, IPv6 only, unknown} x registrar response {absent, empty, ipv4addr, ipv6addr = IPv6 / IPv4 in 4 bytes / IPv4 in 16 bytes / 3 bytes, both overrides with an IPv4 address in ipv6addr} x transport {min, dtls with the client's endpoints} x registrar {API, bidirectional API, detector}, otherwise well-formed, through the real parseRegMessage + ingestRegistration as an ingest worker runs them; oracle and non-triviality as in 'ingest'; distinct by case")
+	defer rec.Flush()
+	rec.Require("station-complained", "registration-built", "complained-about-v6-registrant", "fam:v6-registrant+v4-phantom:by-override", "fam:v6-registrant+v4-phantom:by-generation", "fam:v6-registrant+v6-phantom", "fam:v4-registrant+v6-registration-with-v4-phantom", "fam:v4-registrant+generation-without-v4", "fam:no-registrant-address")
+	if vh.ReplayFile() != "" && !strings.Contains(vh.ReplayFile(), "_ingestfam_") {
+		t.Skip("replay file belongs to another sub-check")
+	}
+	run := c17iSetup(t, rec)
+	if p := vh.ReplayFile(); p != "" {
+		var c c17iCase
+		if _, _, err := vh.LoadReplay(p, &c); err != nil {
+			t.Fatal(err)
+		}
+		run(t, c)
+		return
+	}
+	rec.SetExhaustive(true)
+	type ov struct {
+		rr       bool
+		rr4, rr6 string
+	}
+	i := 0
+	for _, ra := range []string{"none", "v4", "v6", "mapped"} {
+		for fam := 0; fam < 4; fam++ {
+			for _, gen := range []uint32{957, 958, 959, 123456} {
+				for _, o := range []ov{{}, {rr: true}, {true, "v4", ""}, {true, "", "v6"}, {true, "", "v4"}, {true, "", "mapped"}, {true, "", "short"}, {true, "v4", "v4"}} {
+					for _, tt := range []int{0, 3} {
+						for _, src := range []int{0, 2, 1} {
+							i++
+							if !vh.Mine(i) {
+								continue
+							}
+							c := c17iCase{TT: tt, ParamsFor: tt, RegAddr: c17iAddr{Kind: ra, Port: 51234}, Src4: c17iAddr{Kind: "v4", Port: 51234}, Src6: c17iAddr{Kind: "v6", Port: 51234},
+								Gen: gen, LibVer: 4, V4: fam&1 != 0, V6: fam&2 != 0, SecretLen: 32, Source: src, RR: o.rr, RRv4: o.rr4, RRv6: o.rr6}
+							run(t, c)
+						}
+					}
+				}
+			}
+		}
+	}
+}
+
+func c17iGen(rt *rapid.T) c17iCase {
+	c := c17iCase{
+		TT:        rapid.SampledFrom([]int{0, 1, 2, 3, 3, 3, 4}).Draw(rt, "tt"),
+		RegAddr:   c17iGenAddr(rt, "reg", []string{"none", "v4", "v4", "v6", "v6", "mapped", "short", "long", "empty"}),
+		Src4:      c17iGenAddr(rt, "src4", []string{"none", "v4", "v4", "v6", "mapped", "short", "long"}),
+		Src6:      c17iGenAddr(rt, "src6", []string{"none", "v6", "v6", "v4", "mapped", "short", "long"}),
+		Gen:       rapid.SampledFrom([]uint32{957, 957, 957, 1, 123456, 0, 958, 959}).Draw(rt, "gen"),
+		LibVer:    rapid.SampledFrom([]uint32{0, 1, 2, 3, 4, 5, 99}).Draw(rt, "libver"),
+		V4:        rapid.Bool().Draw(rt, "v4"),
+		V6:        rapid.Bool().Draw(rt, "v6"),
+		SecretLen: rapid.SampledFrom([]int{32, 32, 32, 32, 0, 7, 16}).Draw(rt, "secretlen"),
+		Source:    rapid.IntRange(0, 6).Draw(rt, "source"),
+		Dup:       rapid.IntRange(0, 4).Draw(rt, "dup") == 0,
+		Unidir:    rapid.Bool().Draw(rt, "unordered"),
+		Tunnel:    rapid.SampledFrom([]int{0, 1, 1, 2}).Draw(rt, "tunnel"),
+	}
+	c.ParamsFor = c.TT
+	switch rapid.IntRange(0, 5).Draw(rt, "paramsmode") {
+	case 0:
+		c.ParamsFor = -1
+	case 1:
+		c.ParamsFor = rapid.IntRange(0, 3).Draw(rt, "paramsfor")
+	}
+	if c.ParamsFor > 3 {
+		c.ParamsFor = 0
+	}
+	if rapid.Bool().Draw(rt, "rr") {
+		c.RR = true
+		c.RRv4 = rapid.SampledFrom([]string{"", "", "zero", "v4"}).Draw(rt, "rr-v4")
+		c.RRv6 = rapid.SampledFrom([]string{"", "v6", "v6", "v4", "mapped", "short", "long", "empty"}).Draw(rt, "rr-v6")
+		c.RRPort = rapid.SampledFrom([]int{0, 0, 443, -1, 51234, 70000}).Draw(rt, "rr-port")
+		if rapid.IntRange(0, 2).Draw(rt, "rr-params") == 0 {
+			c.RRParamsFor = 1 + rapid.SampledFrom([]int{c.TT % 4, 3, 3, 0, 1}).Draw(rt, "rr-paramsfor")
+		}
+		c.NoOverrides = rapid.IntRange(0, 3).Draw(rt, "no-overrides") == 0
+		c.RRErr = rapid.IntRange(0, 5).Draw(rt, "rr-err") == 0
+	}
+	c.Decoy = rapid.SampledFrom([]string{"", "", "v4", "v6", "short"}).Draw(rt, "decoy")
+	return c
+}
+
+// c17iSetup builds the station side once (registration manager with the real transports, capture of
+// every log writer, a covert) and returns the function that passes one message through it.
+func c17iSetup(t *testing.T, rec *vh.Rec) func(t vh.Fataler, c c17iCase) {
 	capture := &vSyncBuf{}
 	oldLog := golog.Writer()
 	golog.SetOutput(capture)
 	log.SetOutput(capture)
 	log.SetLevel(log.ErrorLevel) // the package default ("normal production"): errors and info lines are written, warnings and debug lines are not
-	defer func() { golog.SetOutput(oldLog); log.SetOutput(oldLog) }()
-	e := vNewEnv(t, nil, "")
+	t.Cleanup(func() { golog.SetOutput(oldLog); log.SetOutput(oldLog) })
+	e := vNewEnv(t, nil, c17iSubnets)
 	e.rm.Logger = log.New(capture, "[REG] ", golog.Ldate|golog.Lmicroseconds)
 	done := make(chan string, 1<<16)
 	e.rm.connectingStats = &c17cStats{done: done}
@@ -164,7 +347,7 @@ func TestVerif_C17_ingest(t *testing.T) {
 	if err != nil {
 		t.Fatalf("harness problem: %v", err)
 	}
-	defer covert.Close()
+	t.Cleanup(func() { covert.Close() })
 	go func() {
 		for {
 			c, err := covert.Accept()
@@ -196,22 +379,25 @@ func TestVerif_C17_ingest(t *testing.T) {
 		regAddr := c17iBytes(c.RegAddr, c17iV4, c17iV6)
 		src4 := c17iBytes(c.Src4, c17iS4, c17iS6)
 		src6 := c17iBytes(c.Src6, c17iS4, c17iS6)
-		var params proto.Message
-		switch c.ParamsFor {
-		case 0, 2:
-			params = &pb.GenericTransportParams{RandomizeDstPort: proto.Bool(true)}
-		case 1:
-			params = &pb.PrefixTransportParams{PrefixId: proto.Int32(0), RandomizeDstPort: proto.Bool(false)}
-		case 3:
-			p := &pb.DTLSTransportParams{RandomizeDstPort: proto.Bool(true), Unordered: proto.Bool(c.Unidir)}
-			if src4 != nil {
-				p.SrcAddr4 = &pb.Addr{IP: src4, Port: proto.Uint32(c.Src4.Port)}
+		mkParams := func(tt int) proto.Message {
+			switch tt {
+			case 0, 2:
+				return &pb.GenericTransportParams{RandomizeDstPort: proto.Bool(true)}
+			case 1:
+				return &pb.PrefixTransportParams{PrefixId: proto.Int32(0), RandomizeDstPort: proto.Bool(false)}
+			case 3:
+				p := &pb.DTLSTransportParams{RandomizeDstPort: proto.Bool(true), Unordered: proto.Bool(c.Unidir)}
+				if src4 != nil {
+					p.SrcAddr4 = &pb.Addr{IP: src4, Port: proto.Uint32(c.Src4.Port)}
+				}
+				if src6 != nil {
+					p.SrcAddr6 = &pb.Addr{IP: src6, Port: proto.Uint32(c.Src6.Port)}
+				}
+				return p
 			}
-			if src6 != nil {
-				p.SrcAddr6 = &pb.Addr{IP: src6, Port: proto.Uint32(c.Src6.Port)}
-			}
-			params = p
+			return nil
 		}
+		params := mkParams(c.ParamsFor)
 		covertAddr := "198.51.100.10:443"
 		switch c.Tunnel {
 		case 1:
@@ -231,6 +417,9 @@ func TestVerif_C17_ingest(t *testing.T) {
 			Transport:           tts[c.TT].Enum(),
 			Flags:               &pb.RegistrationFlags{},
 		}
+		if c.NoOverrides {
+			c2s.DisableRegistrarOverrides = proto.Bool(true)
+		}
 		if params != nil {
 			a, err := anypb.New(params)
 			if err != nil {
@@ -241,6 +430,43 @@ func TestVerif_C17_ingest(t *testing.T) {
 		w := &pb.C2SWrapper{SharedSecret: secret, RegistrationPayload: c2s, RegistrationSource: sources[c.Source].Enum()}
 		if regAddr != nil {
 			w.RegistrationAddress = regAddr
+		}
+		switch c.Decoy {
+		case "v4":
+			w.DecoyAddress = []byte(net.IPv4(198, 51, 100, 99).To4())
+		case "v6":
+			w.DecoyAddress = []byte(net.ParseIP("2001:db8:dec0::1"))
+		case "short":
+			w.DecoyAddress = []byte{198, 51, 100}
+		}
+		if c.RR {
+			rr := &pb.RegistrationResponse{}
+			switch c.RRv4 {
+			case "zero":
+				rr.Ipv4Addr = proto.Uint32(0)
+			case "v4":
+				rr.Ipv4Addr = proto.Uint32(uint32(c17iP4[0])<<24 | uint32(c17iP4[1])<<16 | uint32(c17iP4[2])<<8 | uint32(c17iP4[3]))
+			}
+			if c.RRv6 != "" {
+				rr.Ipv6Addr = c17iBytes(c17iAddr{Kind: c.RRv6}, c17iP4, c17iP6)
+			}
+			switch {
+			case c.RRPort == -1:
+				rr.DstPort = proto.Uint32(0)
+			case c.RRPort != 0:
+				rr.DstPort = proto.Uint32(uint32(c.RRPort))
+			}
+			if c.RRParamsFor != 0 {
+				a, err := anypb.New(mkParams(c.RRParamsFor - 1))
+				if err != nil {
+					t.Fatalf("harness problem: %v", err)
+				}
+				rr.TransportParams = a
+			}
+			if c.RRErr {
+				rr.Error = proto.String("registrar: could not reach every station")
+			}
+			w.RegistrationResponse = rr
 		}
 		b, err := proto.Marshal(w)
 		if err != nil {
@@ -305,9 +531,22 @@ func TestVerif_C17_ingest(t *testing.T) {
 		if k := c.RegAddr.Kind; k == "short" || k == "long" || k == "empty" {
 			classes = append(classes, "regaddr-malformed")
 		}
+		if c.RR {
+			classes = append(classes, "registrar-response")
+			if c.RRv4 == "v4" || c.RRv6 != "" {
+				classes = append(classes, "registrar-override:phantom")
+			}
+			if c.RRParamsFor == 4 && !c.NoOverrides && (c.Src4.Kind != "none" || c.Src6.Kind != "none") {
+				classes = append(classes, "registrar-override:params-with-endpoints")
+			}
+		}
+		classes = append(classes, c17iFamClasses(c)...)
+		if logs != "" && c.RegAddr.Kind == "v6" {
+			classes = append(classes, "complained-about-v6-registrant")
+		}
 		rec.Case(logs != "", vh.Digest(c), c, classes...)
 		for what, bs := range map[string][]byte{"registrant address": regAddr, "DTLS IPv4 endpoint": src4, "DTLS IPv6 endpoint": src6} {
-			if what != "registrant address" && c.ParamsFor != 3 {
+			if what != "registrant address" && c.ParamsFor != 3 && !(c.RR && c.RRParamsFor == 4) {
 				continue
 			}
 			for _, needle := range c17iNeedles(bs) {
@@ -327,40 +566,5 @@ func TestVerif_C17_ingest(t *testing.T) {
 			}
 		}
 	}
-	if p := vh.ReplayFile(); p != "" {
-		var c c17iCase
-		if _, _, err := vh.LoadReplay(p, &c); err != nil {
-			t.Fatal(err)
-		}
-		run(t, c)
-		return
-	}
-	rapid.Check(t, func(rt *rapid.T) {
-		c := c17iCase{
-			TT:        rapid.SampledFrom([]int{0, 1, 2, 3, 3, 3, 4}).Draw(rt, "tt"),
-			RegAddr:   c17iGenAddr(rt, "reg", []string{"none", "v4", "v4", "v6", "v6", "mapped", "short", "long", "empty"}),
-			Src4:      c17iGenAddr(rt, "src4", []string{"none", "v4", "v4", "v6", "mapped", "short", "long"}),
-			Src6:      c17iGenAddr(rt, "src6", []string{"none", "v6", "v6", "v4", "mapped", "short", "long"}),
-			Gen:       rapid.SampledFrom([]uint32{957, 957, 957, 1, 123456, 0}).Draw(rt, "gen"),
-			LibVer:    rapid.SampledFrom([]uint32{0, 1, 2, 3, 4, 5, 99}).Draw(rt, "libver"),
-			V4:        rapid.Bool().Draw(rt, "v4"),
-			V6:        rapid.Bool().Draw(rt, "v6"),
-			SecretLen: rapid.SampledFrom([]int{32, 32, 32, 32, 0, 7, 16}).Draw(rt, "secretlen"),
-			Source:    rapid.IntRange(0, 6).Draw(rt, "source"),
-			Dup:       rapid.IntRange(0, 4).Draw(rt, "dup") == 0,
-			Unidir:    rapid.Bool().Draw(rt, "unordered"),
-			Tunnel:    rapid.SampledFrom([]int{0, 1, 1, 2}).Draw(rt, "tunnel"),
-		}
-		c.ParamsFor = c.TT
-		switch rapid.IntRange(0, 5).Draw(rt, "paramsmode") {
-		case 0:
-			c.ParamsFor = -1
-		case 1:
-			c.ParamsFor = rapid.IntRange(0, 3).Draw(rt, "paramsfor")
-		}
-		if c.ParamsFor > 3 {
-			c.ParamsFor = 0
-		}
-		run(rt, c)
-	})
+	return run
 }
